@@ -85,12 +85,13 @@ type rangeCase struct {
 var rangeTargets = []string{
 	"sec1-sm2", "sec1-typed-sm2", "p8-sm2", "p8-ecdh", "p8enc-gcm-sm2", "p8enc-cbc-sm2", "p8enc-ecb-sm2", "p8enc-pbes1-sm2", "pem-sm2", "env", "cfca",
 	"sec1-p256", "p8-p256", "sec1-p384", "p8enc-gcm-p256",
+	"sec1-p521", "sec1-typed-p521", "p8-p521", "p8enc-cbc-p521", "pem-p521", "sec1-p224", "p8-p224", "p8enc-gcm-p224",
 	"sm9-asn1-signmaster", "sm9-asn1-encmaster", "p8-sm9-signmaster", "p8-sm9-encmaster",
 	"raw-sm2.NewPrivateKey", "raw-sm2.NewPrivateKeyFromInt", "raw-ecdh.NewPrivateKey",
 }
 
 var rangeScalars = []string{
-	"zero", "zero-1byte", "zero-empty", "n-1", "n", "n+1", "2n-1", "2^bits-1", "2^bits", "size+1 x ff", "2*size random",
+	"zero", "zero-1byte", "zero-empty", "n-1", "n", "n+1", "2n-1", "2^nbits-1", "2^bits-1", "2^bits", "size+1 x ff", "2*size random",
 	// controls and tolerated encodings
 	"one", "max-valid", "mid", "mid-lz-stripped", "mid-zero-padded",
 }
@@ -119,6 +120,10 @@ func plantedScalar(name string, n *big.Int, size int, maxValid *big.Int, seed ui
 		if v.BitLen() > 8*size {
 			return v.Bytes(), v, false
 		}
+		return fill(v), v, false
+	case "2^nbits-1":
+		// all bits of the order's bit length set (2^521-1 for P-521, the field prime itself there): >= n
+		v = new(big.Int).Sub(new(big.Int).Lsh(one, uint(n.BitLen())), one)
 		return fill(v), v, false
 	case "2^bits-1":
 		v = new(big.Int).Sub(new(big.Int).Lsh(one, uint(8*size)), one)
@@ -217,24 +222,23 @@ func checkRange(c rangeCase, r *h.Rec) error {
 	)
 	pw := password(4, c.Seed)
 	switch {
-	case hasSuffix(c.Target, "-sm2") || c.Target == "p8-ecdh" || hasSuffix(c.Target, "-p256") || hasSuffix(c.Target, "-p384"):
+	case hasSuffix(c.Target, "-sm2") || c.Target == "p8-ecdh" || isNISTTarget(c.Target):
 		// SEC1 / PKCS#8 family: plant into the privateKey OCTET STRING (and the matching public key)
 		var base *built
 		var enc []byte
 		var pubBytes []byte
 		isP8 := hasPrefix(c.Target, "p8")
 		switch {
-		case hasSuffix(c.Target, "-p256"), hasSuffix(c.Target, "-p384"):
-			curve, kc := elliptic.P256(), "p256-uniform"
-			if hasSuffix(c.Target, "-p384") {
-				curve, kc = elliptic.P384(), "p384-uniform"
-			}
+		case isNISTTarget(c.Target):
+			curve, cname, _ := nistCurveOf(c.Target)
+			kc := cname + "-uniform"
+			r.Label("curve:" + cname)
 			n := curve.Params().N
 			enc, v, valid = plantedScalar(c.Scalar, n, (n.BitLen()+7)/8, new(big.Int).Sub(n, one), c.Seed)
 			k, finite := ecKeyFor(curve, v)
 			expect = k
 			if finite {
-				pubBytes = elliptic.Marshal(curve, k.X, k.Y)
+				pubBytes = ecPoint(curve, k.X, k.Y)
 			}
 			cont := "sec1"
 			if hasPrefix(c.Target, "p8") {
@@ -313,6 +317,9 @@ func checkRange(c rangeCase, r *h.Rec) error {
 				der, err := smx509.DecryptPEMBlock(blk, pw)
 				if err != nil {
 					return nil, err
+				}
+				if isNISTTarget(c.Target) {
+					return nilIfErr(smx509.ParseECPrivateKey(der))
 				}
 				return nilIfErr(smx509.ParseSM2PrivateKey(der))
 			}
@@ -446,6 +453,11 @@ func checkRange(c rangeCase, r *h.Rec) error {
 	}
 	r.Label("plant:accepted-correct-key")
 	return nil
+}
+
+func isNISTTarget(t string) bool {
+	_, _, ok := nistCurveOf(t)
+	return ok
 }
 
 func (b *built) dec2() func([]byte) (any, error) {
